@@ -16,6 +16,7 @@ mod fam_adds;
 mod fam_roundtrip;
 mod fam_parse;
 mod fam_comp;
+mod fam_sidefx;
 mod parse_facts;
 
 use ctx::Ctx;
@@ -61,6 +62,7 @@ fn main() {
         "roundtrip" => fam_roundtrip::run(&mut ctx),
         "parse" => fam_parse::run(&mut ctx),
         "comp" => fam_comp::run(&mut ctx),
+        "sidefx" => fam_sidefx::run(&mut ctx),
         x => {
             eprintln!("unknown family {x}");
             std::process::exit(2);
